@@ -22,12 +22,13 @@ const (
 	c_suffix_checks
 	c_value_roundtrips
 	c_reader_skipped_dangerous_claim
+	c_pairs_skipped_quarantined_type
 	nCtr
 )
 
 var cnt [nCtr]int64
 
-var cntNames = [nCtr]string{"accepted", "alloc_checks", "bytes_cases", "count_checks", "exh_strings", "hostile_strings", "mutated_strings", "reader_checks", "reencode_checks", "rejected_grammatical", "rejected_ungrammatical", "split_accepted", "split_checks", "stream_walks", "stream_walks_accepted", "suffix_checks", "value_roundtrips", "reader_skipped_dangerous_claim"}
+var cntNames = [nCtr]string{"accepted", "alloc_checks", "bytes_cases", "count_checks", "exh_strings", "hostile_strings", "mutated_strings", "reader_checks", "reencode_checks", "rejected_grammatical", "rejected_ungrammatical", "split_accepted", "split_checks", "stream_walks", "stream_walks_accepted", "suffix_checks", "value_roundtrips", "reader_skipped_dangerous_claim", "pairs_skipped_quarantined_type"}
 
 func flushCounts(r *mon.Run) {
 	for i, n := range cnt {
